@@ -98,6 +98,41 @@ def _install_collector_hook():
     S.SendCollector._handle_timeout = handle_timeout
 
 
+_STORE_HOOKED = False
+
+
+def _s_key(entry):
+    if isinstance(entry, S.EventgroupSubscription):
+        return [1, s_sub(entry)]
+    return [0, conv.s_service(entry)]
+
+
+def _install_store_hook():
+    """TimedStore.refresh / _expired record (re)storing and expiry in the call history of the simulation the store belongs to."""
+    global _STORE_HOOKED
+    if _STORE_HOOKED:
+        return
+    _STORE_HOOKED = True
+    orig_refresh, orig_expired = S.TimedStore.refresh, S.TimedStore._expired
+
+    def refresh(self, ttl, address, entry, callback_new, callback_expired):
+        orig_refresh(self, ttl, address, entry, callback_new, callback_expired)     # NakSubscription: nothing is stored, nothing recorded
+        tag = getattr(self, "_verif", None)
+        if tag is not None:
+            sim, sid = tag
+            sim.ghost.append([sim.now(), 3, sid, addr_id(address), _s_key(entry), int(ttl)])
+
+    def _expired(self, address, entry):
+        present = entry in self.store.get(address, {})
+        orig_expired(self, address, entry)
+        tag = getattr(self, "_verif", None)
+        if tag is not None and present:
+            sim, sid = tag
+            sim.ghost.append([sim.now(), 4, sid, addr_id(address), _s_key(entry)])
+    S.TimedStore.refresh = refresh
+    S.TimedStore._expired = _expired
+
+
 class RecTransport:
     def __init__(self, sim):
         self.sim = sim
@@ -140,6 +175,8 @@ class StackSim:
         # call history, compared with the model's ghost history: queue_send calls, collector hand-overs, send_sd calls
         self.ghost = []
         _install_collector_hook()
+        _install_store_hook()
+        self.prot.discovery.found_services._verif = (self, [])
         orig_send, orig_queue = self.prot.send_sd, self.prot.announcer.queue_send
 
         def send_sd(entries, remote=None):
@@ -162,6 +199,7 @@ class StackSim:
         for iid, svc, reject in sc["insts"]:
             inst = S.ServiceInstance(conv.d_service(svc), RecServer(self, iid, reject), self.prot.announcer, self.timings)
             inst.log.disabled = True
+            inst.subscriptions._verif = (self, [iid])
             self.insts[iid] = inst
         for t, ev in sc["events"]:
             self.loop.inject(t, (lambda e: (lambda: self.do(e)))(ev))
